@@ -192,6 +192,20 @@ def check(ctx):
     place = [n for n in ast.walk(dk) if isinstance(n, ast.ListComp) and "placed[i] if i in placed else next(rest)" in unparse(n)]
     ok = len(place) == 1 and eqv(place[0].generators[0].iter, "range(len(all_keys) + len(placed))") and bool(find("rest = iter(all_keys)", dk))
     ctx.ob("ORD.sequence-positions.merge", dk, "__dask_keys__ fills slot i with the group member recorded for i, else with the next ungrouped key: one pass over all output slots", ok, "" if ok else "the recorded positions are applied one after the other to a list that is still growing: with three or more optimizer kinds interleaved the keys land in the wrong slots")
+    # ---------------- composite collections: optimize keeps the whole (still lazy) graph, persist keeps the computed outputs
+    of_ = base.func("optimize")
+    oc = [c for c in calls(of_, "_rebuild_composite_collection")]
+    ok = len(oc) == 1 and kwarg(oc[0], "cull_to_child_keys") is not None and eqv(kwarg(oc[0], "cull_to_child_keys"), "False")
+    ctx.ob("ARG.composite-rebuild.cull", of_, "optimize: _rebuild_composite_collection(..., cull_to_child_keys=False) -- the children's graphs are still needed", ok, "" if ok else "only each child's output task is kept: the optimized collection has the right type but can no longer be computed")
+    pc_ = [c for c in calls(pf, "_rebuild_composite_collection")]
+    ok = len(pc_) == 1 and kwarg(pc_[0], "cull_to_child_keys") is not None and eqv(kwarg(pc_[0], "cull_to_child_keys"), "True")
+    ctx.ob("ARG.composite-rebuild.cull", pf, "persist: _rebuild_composite_collection(..., cull_to_child_keys=True) -- only computed outputs exist", ok)
+    # ---------------- a persisted dataframe lists its partitions in partition order
+    fpp = model.module("dask/dataframe/dask_expr/_collection.py").func("FrameBase._postpersist")
+    ks = find("keys = M_v", fpp)
+    plain = [k for k in ks if not any(eqv(e, "rename") and pol for e, pol in cfg_of(fpp).facts(k[0]))]
+    ok = len(plain) == 1 and eqv(plain[0][1]["M_v"], "sorted(futures)")
+    ctx.ob("ORD.persist.partition-order", fpp, "FrameBase._postpersist: keys = sorted(futures) -- (name, 0), (name, 1), ... whatever order the results arrive in", ok, "" if ok else "partitions are taken in dict order: persisted together with other collections the frame comes back with permuted partitions (rows in the wrong order)")
 
 
 VARIANTS = [
